@@ -465,8 +465,9 @@ pub fn write_value(v: &RVal, ch: &mut Ch, out: &mut String, top: bool) {
         }
         RVal::Date(y, m, d) => out.push_str(&format!("{y:04}-{m:02}-{d:02}")),
         RVal::Time(h, m, s, n) => {
+            let (s, n) = if *n >= 1_000_000_000 { (*s + 1, *n - 1_000_000_000) } else { (*s, *n) };
             out.push_str(&format!("{h:02}:{m:02}:{s:02}"));
-            write_frac(*n, ch, out);
+            write_frac(n, ch, out);
         }
         RVal::DateTime(d) => write_datetime(d, ch, out),
         RVal::Coord(a, b) => {
@@ -741,7 +742,7 @@ impl<'a> Reader<'a> {
             }
             nanos = v as u32;
         }
-        if h > 23 || m > 59 || s > 59 {
+        if h > 23 || m > 59 || s > 60 {
             return self.err("time out of range");
         }
         Ok((h, m, s, nanos))
@@ -760,6 +761,9 @@ impl<'a> Reader<'a> {
         }
         self.i += 1;
         let (h, mi, s, nanos) = self.time_fields()?;
+        if s > 59 {
+            return self.err("time out of range");
+        }
         let local = days_from_civil(y, mo, d) * 86_400 + (h * 3600 + mi * 60 + s) as i64;
         // zone
         let (offset, name): (i32, Option<String>) = match self.peek() {
@@ -1069,7 +1073,7 @@ impl<'a> Reader<'a> {
                     self.date_or_datetime()
                 } else if self.looks_like_time() {
                     let (h, m, s, n) = self.time_fields()?;
-                    Ok(RVal::Time(h, m, s, n))
+                    Ok(if s == 60 { RVal::Time(h, m, 59, n + 1_000_000_000) } else { RVal::Time(h, m, s, n) })
                 } else {
                     self.number()
                 }
